@@ -483,6 +483,23 @@ def _decision_table(ctx, fn, max_visits=1, full=None, plain=False):
                 v = p.env.get(loc)
                 if isinstance(v, tuple) and name in getattr(p, 'havocked', ()):
                     row['state'][name] = _clip(N(v), 120)
+        if kind == 'RET' and isinstance(ret, tuple) and is_call(ret) and ret[1].split('::')[-1] == 'find_map' and 'Iterator' in ret[1] and len(ret[2]) == 2:
+            # it.find_map(f) is the loop `for e in it { if let Some(v) = f(e) { return Some(v) } } None`: its three single-visit rows
+            it = norm(('call', '<I as std::iter::IntoIterator>::into_iter', (ret[2][0],), '', None))
+            nxt = ('call', 'std::iter::Iterator::next', (it,), '', None)
+            fe = _apply(norm(ret[2][1]), nxt)
+            base = dict(row)
+            for extra, o, v in (([S(nxt) + '=None'], 'val:None', 'None{}'),
+                                ([S(nxt) + '=Some', S(fe) + '=Some'], 'val:Some', 'Some{%s}' % S(fe)),
+                                ([S(nxt) + '=Some', S(fe) + '=None'], 'loop', '')):
+                r2 = dict(base)
+                r2['conds'] = conds + extra
+                r2['out'] = o
+                r2['value'] = v
+                if 'trace' in r2:
+                    r2['trace'] = [t0 for t0 in r2['trace'] if not t0.startswith('find_map(')] + ['next(%s)' % S(it)]
+                rows.append(r2)
+            continue
         if kind == 'RET' and out.startswith('val') and isinstance(ret, tuple):
             # decisions hidden in a returned and_then / map chain
             ex = expand_result(ret)
